@@ -79,3 +79,22 @@ def _legendre_returns_x(inp):
     x = Fraction(d[-2], d[-1])
     p = int(inp["prec"])
     return 0 < abs(x) < Fraction(1, 1 << (2 * p + 30))
+
+
+@predicate("special_value_is_zero_hypsum_cannot_converge")
+def _value_zero(inp):
+    """the exact value is 0 (or the rigorous enclosure of the value contains 0): hypsum's relative convergence test can never be
+    met, the function raises NoConvergence / returns nan instead of 0"""
+    if inp.get("reference_is_zero"):
+        return True
+    e = inp.get("reference_enclosure_wp8")
+    if isinstance(e, list) and len(e) == 4:
+        return int(e[0]) <= 0 <= int(e[2])
+    return False
+
+
+@predicate("hyper_terminating_degree_ge_100")
+def _hyper_big_degree(inp):
+    A, B, z = _hyper_split(inp)
+    return any(a.denominator == 1 and a <= -100 for a in A)
+
